@@ -271,5 +271,9 @@ CONTRACTS["scale.d3_scale_linearNice"] = {
     "ensures": [("same_list", "result is domain"),
                 ("never_inward_lo", "min(domain[0], domain[1]) <= min(%s, %s)" % (_D0, _D1)),
                 ("never_inward_hi", "max(domain[0], domain[1]) >= max(%s, %s)" % (_D0, _D1)),
-                ("orientation", "implies(%s < %s, domain[0] < domain[1]) and implies(%s > %s, domain[0] > domain[1])" % (_D0, _D1, _D0, _D1))],
+                ("orientation", "implies(%s < %s, domain[0] < domain[1]) and implies(%s > %s, domain[0] > domain[1])" % (_D0, _D1, _D0, _D1)),
+                # NOT under contract (bounded only, driver c14): "each end moves by less than two tick steps of the resulting
+                # domain" and "lands on a multiple of a tenth of the step" need three related evaluations of
+                # 10**floor(log10 .); the direct VC did not terminate in z3 within 20 minutes (DESIGN section 6, C14).
+                ],
 }
